@@ -163,10 +163,15 @@ def check(run, model, tier):
     run.inst('TABLE.registries', rp, 'parents stored under the state name', ok, 'register_parent stores under %s' % wk, obligation=True)
     # ---- CODEGEN.fragments
     lits = []
+    # the accumulated text is the local that to_code returns
+    code_vars = {r.value.id for r in walk_shallow(tc.node) if isinstance(r, ast.Return) and isinstance(r.value, ast.Name)}
+    if len(code_vars) != 1:
+        raise AnalysisError('to_code: the returned text variable was not identified')
+    code_var = code_vars.pop()
     for n in walk_shallow(tc.node):
         if isinstance(n, (ast.Assign, ast.AugAssign)):
             tg = n.targets[0] if isinstance(n, ast.Assign) else n.target
-            if isinstance(tg, ast.Name) and tg.id == 'code':
+            if isinstance(tg, ast.Name) and tg.id == code_var:
                 v = n.value
                 s_ = const_str(v) if const_str(v) is not None else (const_str(v.func.value) if isinstance(v, ast.Call) and isinstance(v.func, ast.Attribute) and v.func.attr == 'format' else None)
                 if s_ is None:
@@ -237,7 +242,7 @@ def check(run, model, tier):
     txt = norm(tc.node, 100000)
     ok = "'chart.top'" in txt and "== 'top'" in txt
     run.inst('CODEGEN.fragments', tc, "the top parent is emitted as chart.top", ok, 'top is no longer emitted as chart.top (a bare `top` is undefined in the generated text)', obligation=True)
-    ok = "callback == 'handled'" in txt and 'callback is None' in txt
+    ok = ".callback == 'handled'" in txt and '.callback is None' in txt
     run.inst('CODEGEN.fragments', tc, 'missing and default callbacks are emitted as HANDLED', ok, 'the default `handled` callback is emitted as a call to an undefined name', obligation=True)
     # ---- FACTORY.attributes
     fac = model.cls('Factory')
